@@ -34,10 +34,12 @@ VARIABLES
   runStart, \* line of the most recent reset
   lastSend, \* lastSend[<<n, g>>]: when n last opened a stream on connection g
   quietLen, \* quietLen[n]: length of evlog[n] at the last quiescence observation
-  callListed \* callListed[nonce]: was the callee listed when the RPC was issued
+  callListed, \* callListed[nonce]: was the callee listed when the RPC was issued
+  pathOut,  \* pathOut[<<a, b>>]: when a last sent a datagram towards b (delivered or not)
+  pathIn    \* pathIn[<<a, b>>]: when a datagram from a was last let through to b
 
 tvars == <<l, now, pendEv, conns, tasks, spawnQ, nextTick, phase, subs, subPos, addrNode,
-           lastAdd, replies, closeT, faultT, idle, ka, runStart, lastSend, quietLen, callListed>>
+           lastAdd, replies, closeT, faultT, idle, ka, runStart, lastSend, quietLen, callListed, pathOut, pathIn>>
 allvars == <<vars, tvars>>
 
 TraceNoLimit == -1
@@ -72,7 +74,7 @@ TraceInit ==
   /\ pendEv = Empty /\ conns = Empty /\ tasks = Empty /\ spawnQ = Empty
   /\ nextTick = Empty /\ phase = Empty /\ subs = Empty /\ subPos = Empty
   /\ addrNode = Empty /\ lastAdd = Empty /\ replies = Empty /\ closeT = Empty
-  /\ faultT = -1 /\ idle = Empty /\ ka = Empty /\ runStart = 0 /\ lastSend = Empty /\ quietLen = Empty /\ callListed = Empty
+  /\ faultT = -1 /\ idle = Empty /\ ka = Empty /\ runStart = 0 /\ lastSend = Empty /\ quietLen = Empty /\ callListed = Empty /\ pathOut = Empty /\ pathIn = Empty
 
 -----------------------------------------------------------------------------
 Cur == Rec[l]
@@ -98,7 +100,7 @@ TrReset ==
   /\ pendEv' = Empty /\ conns' = Empty /\ tasks' = Empty /\ spawnQ' = Empty
   /\ nextTick' = Empty /\ phase' = Empty /\ subs' = Empty /\ subPos' = Empty
   /\ addrNode' = Empty /\ lastAdd' = Empty /\ replies' = Empty /\ closeT' = Empty
-  /\ faultT' = -1 /\ idle' = Empty /\ ka' = Empty /\ runStart' = l /\ lastSend' = Empty /\ quietLen' = Empty /\ callListed' = Empty
+  /\ faultT' = -1 /\ idle' = Empty /\ ka' = Empty /\ runStart' = l /\ lastSend' = Empty /\ quietLen' = Empty /\ callListed' = Empty /\ pathOut' = Empty /\ pathIn' = Empty
 
 TrNodeStart ==
   /\ IsEvent("obs.node_start")
@@ -108,7 +110,7 @@ TrNodeStart ==
   /\ addrNode' = With(addrNode, Cur.addr, N)
   /\ idle' = With(idle, N, Get(Cur, "idle_ms", 10000))
   /\ ka' = With(ka, N, Get(Cur, "keepalive_ms", 0))
-  /\ UNCHANGED <<runStart, lastSend, quietLen, callListed>>
+  /\ UNCHANGED <<runStart, lastSend, quietLen, callListed, pathOut, pathIn>>
   /\ cfg' = With(cfg, N, [limit |-> NoLimit, interval |-> 0, step |-> 0, maxb |-> 0, cto |-> 0, cap |-> 0])
   /\ nextTick' = With(nextTick, N, 0)
   /\ UNCHANGED <<conns, tasks, subs, closeT, faultT>>
@@ -118,7 +120,7 @@ TrAddr ==
   /\ IsEvent("obs.addr")
   /\ addrNode' = With(addrNode, Cur.addr, Cur.who)
   /\ UNCHANGED <<vars, pendEv, conns, tasks, spawnQ, nextTick, phase, subs, subPos, lastAdd,
-                 replies, closeT, faultT, idle, ka, runStart, lastSend, quietLen, callListed>>
+                 replies, closeT, faultT, idle, ka, runStart, lastSend, quietLen, callListed, pathOut, pathIn>>
 
 TrMgrStart ==
   /\ IsEvent("mgr.start")
@@ -133,27 +135,27 @@ TrMgrStart ==
   /\ nextTick' = [nextTick EXCEPT ![N] = Cur.t]
   /\ UNCHANGED <<connVars, known, pendingDial, bgResult, backoff, pendingConn,
                  pendEv, conns, tasks, spawnQ, subs, subPos, addrNode, lastAdd, replies,
-                 closeT, faultT, idle, ka, runStart, lastSend, quietLen, callListed>>
+                 closeT, faultT, idle, ka, runStart, lastSend, quietLen, callListed, pathOut, pathIn>>
 
 TrKnownInsert ==
   /\ IsEvent("obs.known_insert")
   /\ known' = [known EXCEPT ![N] = With(@, Cur.peer, [aff |-> Cur.affinity, addrs |-> Cur.addrs])]
   /\ UNCHANGED <<connVars, cfg, pendingDial, bgResult, backoff, pendingConn, pendEv, conns, tasks,
                  spawnQ, nextTick, phase, subs, subPos, addrNode, lastAdd, replies, closeT,
-                 faultT, idle, ka, runStart, lastSend, quietLen, callListed>>
+                 faultT, idle, ka, runStart, lastSend, quietLen, callListed, pathOut, pathIn>>
 
 TrKnownRemove ==
   /\ IsEvent("obs.known_remove")
   /\ known' = [known EXCEPT ![N] = Without(@, Cur.peer)]
   /\ UNCHANGED <<connVars, cfg, pendingDial, bgResult, backoff, pendingConn, pendEv, conns, tasks,
                  spawnQ, nextTick, phase, subs, subPos, addrNode, lastAdd, replies, closeT,
-                 faultT, idle, ka, runStart, lastSend, quietLen, callListed>>
+                 faultT, idle, ka, runStart, lastSend, quietLen, callListed, pathOut, pathIn>>
 
 TrFault ==
   /\ IsEvent("obs.fault")
   /\ faultT' = Cur.t
   /\ UNCHANGED <<vars, pendEv, conns, tasks, spawnQ, nextTick, phase, subs, subPos, addrNode,
-                 lastAdd, replies, closeT, idle, ka, runStart, lastSend, quietLen, callListed>>
+                 lastAdd, replies, closeT, idle, ka, runStart, lastSend, quietLen, callListed, pathOut, pathIn>>
 
 -----------------------------------------------------------------------------
 (* The connectivity check *)
@@ -190,7 +192,7 @@ TrTick ==
                      @ \o [i \in DOMAIN Cur.dials |->
                              [bg |-> TRUE, peer |-> Cur.dials[i].peer, addr |-> Cur.dials[i].addr]]]
   /\ UNCHANGED <<connVars, pendEv, conns, tasks, phase, subs, subPos, addrNode, lastAdd, replies,
-                 closeT, faultT, idle, ka, runStart, lastSend, quietLen, callListed>>
+                 closeT, faultT, idle, ka, runStart, lastSend, quietLen, callListed, pathOut, pathIn>>
 
 TrConnectReq ==
   /\ IsEvent("mgr.connect_req")
@@ -199,7 +201,7 @@ TrConnectReq ==
   /\ spawnQ' = [spawnQ EXCEPT ![N] =
                   Append(@, [bg |-> FALSE, peer |-> Get(Cur, "expected", -1), addr |-> Cur.addr])]
   /\ UNCHANGED <<connVars, known, cfg, pendingDial, bgResult, backoff, pendEv, conns, tasks,
-                 nextTick, phase, subs, subPos, addrNode, lastAdd, replies, closeT, faultT, idle, ka, runStart, lastSend, quietLen, callListed>>
+                 nextTick, phase, subs, subPos, addrNode, lastAdd, replies, closeT, faultT, idle, ka, runStart, lastSend, quietLen, callListed, pathOut, pathIn>>
 
 -----------------------------------------------------------------------------
 (* Outbound: dial_peer_task *)
@@ -215,7 +217,7 @@ TrDialStart ==
                        addr |-> Cur.addr, gid |-> 0, fin |-> "no"])
   /\ spawnQ' = [spawnQ EXCEPT ![N] = Tail(@)]
   /\ UNCHANGED <<vars, pendEv, conns, nextTick, phase, subs, subPos, addrNode, lastAdd, replies,
-                 closeT, faultT, idle, ka, runStart, lastSend, quietLen, callListed>>
+                 closeT, faultT, idle, ka, runStart, lastSend, quietLen, callListed, pathOut, pathIn>>
 
 (* TLS finished on the dialer: it accepted the certificate of the party at  *)
 (* the address.  PinSound / Authentic: the identity it attributes is the    *)
@@ -233,7 +235,7 @@ TrDialTls ==
                     ackSent |-> FALSE, ackRead |-> FALSE, ackConf |-> FALSE])
   /\ tasks' = [tasks EXCEPT ![Cur.task].gid = Cur.gid]
   /\ UNCHANGED <<vars, pendEv, spawnQ, nextTick, phase, subs, subPos, addrNode, lastAdd, replies,
-                 closeT, faultT, idle, ka, runStart, lastSend, quietLen, callListed>>
+                 closeT, faultT, idle, ka, runStart, lastSend, quietLen, callListed, pathOut, pathIn>>
 
 TrDialDone ==
   /\ IsEvent("dial.done")
@@ -252,7 +254,7 @@ TrDialDone ==
                   /\ Closes(N, {tk.gid})
              ELSE UNCHANGED <<closedL, closeT>>
   /\ UNCHANGED <<active, evlog, handlers, dialVars, pendEv, conns, spawnQ, nextTick, phase, subs,
-                 subPos, addrNode, lastAdd, replies, faultT, idle, ka, runStart, lastSend, quietLen, callListed>>
+                 subPos, addrNode, lastAdd, replies, faultT, idle, ka, runStart, lastSend, quietLen, callListed, pathOut, pathIn>>
 
 -----------------------------------------------------------------------------
 (* Inbound: handle_incoming / handle_incoming_task *)
@@ -264,7 +266,7 @@ TrInAccepted ==
   /\ pendingConn' = [pendingConn EXCEPT ![N] = @ + 1]
   /\ UNCHANGED <<connVars, known, cfg, pendingDial, bgResult, backoff, pendEv, conns, tasks,
                  spawnQ, nextTick, phase, subs, subPos, addrNode, lastAdd, replies, closeT,
-                 faultT, idle, ka, runStart, lastSend, quietLen, callListed>>
+                 faultT, idle, ka, runStart, lastSend, quietLen, callListed, pathOut, pathIn>>
 
 TrInStart ==
   /\ IsEvent("in.start")
@@ -273,7 +275,7 @@ TrInStart ==
                    [node |-> N, kind |-> "in", bg |-> FALSE, target |-> -1, addr |-> "-",
                     gid |-> 0, fin |-> "no"])
   /\ UNCHANGED <<vars, pendEv, conns, spawnQ, nextTick, phase, subs, subPos, addrNode, lastAdd,
-                 replies, closeT, faultT, idle, ka, runStart, lastSend, quietLen, callListed>>
+                 replies, closeT, faultT, idle, ka, runStart, lastSend, quietLen, callListed, pathOut, pathIn>>
 
 (* TLS finished on the listener.  In TLS 1.3 the client finishes first, so  *)
 (* the connection is already known from its dialer; the identity the        *)
@@ -288,7 +290,7 @@ TrInTls ==
   /\ conns' = [conns EXCEPT ![Cur.gid].ltls = TRUE]
   /\ tasks' = [tasks EXCEPT ![Cur.task].gid = Cur.gid]
   /\ UNCHANGED <<vars, pendEv, spawnQ, nextTick, phase, subs, subPos, addrNode, lastAdd, replies,
-                 closeT, faultT, idle, ka, runStart, lastSend, quietLen, callListed>>
+                 closeT, faultT, idle, ka, runStart, lastSend, quietLen, callListed, pathOut, pathIn>>
 
 TrAdmission ==
   /\ IsEvent("in.admission")
@@ -305,14 +307,14 @@ TrAdmission ==
           /\ Closes(N, {Cur.gid})
      ELSE UNCHANGED <<closedL, closeT>>
   /\ UNCHANGED <<active, evlog, handlers, dialVars, pendEv, tasks, spawnQ, nextTick, phase, subs,
-                 subPos, addrNode, lastAdd, replies, faultT, idle, ka, runStart, lastSend, quietLen, callListed>>
+                 subPos, addrNode, lastAdd, replies, faultT, idle, ka, runStart, lastSend, quietLen, callListed, pathOut, pathIn>>
 
 TrAckSent ==
   /\ IsEvent("hs.ack_sent")
   /\ conns[Cur.gid].l = N /\ conns[Cur.gid].admit = "admit" /\ ~conns[Cur.gid].ackSent
   /\ conns' = [conns EXCEPT ![Cur.gid].ackSent = TRUE]
   /\ UNCHANGED <<vars, pendEv, tasks, spawnQ, nextTick, phase, subs, subPos, addrNode, lastAdd,
-                 replies, closeT, faultT, idle, ka, runStart, lastSend, quietLen, callListed>>
+                 replies, closeT, faultT, idle, ka, runStart, lastSend, quietLen, callListed, pathOut, pathIn>>
 
 TrAckRead ==
   /\ IsEvent("hs.ack_read")
@@ -321,14 +323,14 @@ TrAckRead ==
      ELSE TRUE                                  \* an adversary listener logs nothing
   /\ conns' = [conns EXCEPT ![Cur.gid].ackRead = TRUE]
   /\ UNCHANGED <<vars, pendEv, tasks, spawnQ, nextTick, phase, subs, subPos, addrNode, lastAdd,
-                 replies, closeT, faultT, idle, ka, runStart, lastSend, quietLen, callListed>>
+                 replies, closeT, faultT, idle, ka, runStart, lastSend, quietLen, callListed, pathOut, pathIn>>
 
 TrAckConfirmed ==
   /\ IsEvent("hs.ack_confirmed")
   /\ conns[Cur.gid].l = N /\ conns[Cur.gid].ackSent /\ ~conns[Cur.gid].ackConf
   /\ conns' = [conns EXCEPT ![Cur.gid].ackConf = TRUE]
   /\ UNCHANGED <<vars, pendEv, tasks, spawnQ, nextTick, phase, subs, subPos, addrNode, lastAdd,
-                 replies, closeT, faultT, idle, ka, runStart, lastSend, quietLen, callListed>>
+                 replies, closeT, faultT, idle, ka, runStart, lastSend, quietLen, callListed, pathOut, pathIn>>
 
 TrInDone ==
   /\ IsEvent("in.done")
@@ -346,7 +348,7 @@ TrInDone ==
                   /\ Closes(N, {tk.gid})
              ELSE UNCHANGED <<closedL, closeT>>
   /\ UNCHANGED <<active, evlog, handlers, dialVars, pendEv, conns, spawnQ, nextTick, phase, subs,
-                 subPos, addrNode, lastAdd, replies, faultT, idle, ka, runStart, lastSend, quietLen, callListed>>
+                 subPos, addrNode, lastAdd, replies, faultT, idle, ka, runStart, lastSend, quietLen, callListed, pathOut, pathIn>>
 
 -----------------------------------------------------------------------------
 (* The active set: every operation logs while holding the write lock *)
@@ -357,7 +359,7 @@ TrApEvent ==
   /\ IsEvent("ap.event")
   /\ pendEv' = [pendEv EXCEPT ![N] = Append(@, EvOf(Cur))]
   /\ UNCHANGED <<vars, conns, tasks, spawnQ, nextTick, phase, subs, subPos, addrNode, lastAdd,
-                 replies, closeT, faultT, idle, ka, runStart, lastSend, quietLen, callListed>>
+                 replies, closeT, faultT, idle, ka, runStart, lastSend, quietLen, callListed, pathOut, pathIn>>
 
 (* add_peer: only for a connecting task of this node that finished Ok       *)
 TrApAdd ==
@@ -376,7 +378,7 @@ TrApAdd ==
   /\ pendEv' = [pendEv EXCEPT ![N] = <<>>]
   /\ lastAdd' = [lastAdd EXCEPT ![N] = [gid |-> Cur.gid, outcome |-> Cur.outcome]]
   /\ UNCHANGED <<dialVars, conns, tasks, spawnQ, nextTick, phase, subs, subPos, addrNode, replies,
-                 faultT, idle, ka, runStart, lastSend, quietLen, callListed>>
+                 faultT, idle, ka, runStart, lastSend, quietLen, callListed, pathOut, pathIn>>
 
 (* handle_connecting_result, after add_peer and before the reply            *)
 TrMgrResult ==
@@ -399,7 +401,7 @@ TrMgrResult ==
   /\ pendingConn' = [pendingConn EXCEPT ![N] = @ - 1]
   /\ lastAdd' = [lastAdd EXCEPT ![N] = [gid |-> 0, outcome |-> "-"]]
   /\ UNCHANGED <<connVars, known, cfg, pendingDial, backoff, pendEv, conns, spawnQ, nextTick,
-                 phase, subs, subPos, addrNode, closeT, faultT, idle, ka, runStart, lastSend, quietLen, callListed>>
+                 phase, subs, subPos, addrNode, closeT, faultT, idle, ka, runStart, lastSend, quietLen, callListed, pathOut, pathIn>>
 
 TrApRemove ==
   /\ IsEvent("ap.remove")
@@ -412,7 +414,7 @@ TrApRemove ==
   /\ Cur.len = Cardinality(DOMAIN active'[N])
   /\ pendEv' = [pendEv EXCEPT ![N] = <<>>]
   /\ UNCHANGED <<dialVars, conns, tasks, spawnQ, nextTick, phase, subs, subPos, addrNode, lastAdd,
-                 replies, faultT, idle, ka, runStart, lastSend, quietLen, callListed>>
+                 replies, faultT, idle, ka, runStart, lastSend, quietLen, callListed, pathOut, pathIn>>
 
 (* The handler of connection hgid ends.  Why it may end (the environment    *)
 (* must have been able to cause it) is checked on the preceding h.closing.  *)
@@ -429,13 +431,13 @@ TrApRemoveId ==
   /\ Cur.len = Cardinality(DOMAIN active'[N])
   /\ pendEv' = [pendEv EXCEPT ![N] = <<>>]
   /\ UNCHANGED <<dialVars, conns, tasks, spawnQ, nextTick, phase, subs, subPos, addrNode, lastAdd,
-                 replies, faultT, idle, ka, runStart, lastSend, quietLen, callListed>>
+                 replies, faultT, idle, ka, runStart, lastSend, quietLen, callListed, pathOut, pathIn>>
 
 TrHStart ==
   /\ IsEvent("h.start")
   /\ Cur.gid \in handlers[N]
   /\ UNCHANGED <<vars, pendEv, conns, tasks, spawnQ, nextTick, phase, subs, subPos, addrNode,
-                 lastAdd, replies, closeT, faultT, idle, ka, runStart, lastSend, quietLen, callListed>>
+                 lastAdd, replies, closeT, faultT, idle, ka, runStart, lastSend, quietLen, callListed, pathOut, pathIn>>
 
 (* the handler saw its connection end: who can have caused that?            *)
 PeerGone(n, g) ==
@@ -468,7 +470,7 @@ TrHClosing ==
             Faulty(N) \/ PeerGone(N, Cur.gid) \/ QuietExpiry(N, Cur.gid)
        [] OTHER -> Other(N, Cur.gid) \notin DOMAIN phase    \* TransportError etc.: adversary only
   /\ UNCHANGED <<vars, pendEv, conns, tasks, spawnQ, nextTick, phase, subs, subPos, addrNode,
-                 lastAdd, replies, closeT, faultT, idle, ka, runStart, lastSend, quietLen, callListed>>
+                 lastAdd, replies, closeT, faultT, idle, ka, runStart, lastSend, quietLen, callListed, pathOut, pathIn>>
 
 -----------------------------------------------------------------------------
 (* Subscriptions and listings as the application sees them *)
@@ -479,14 +481,14 @@ TrApSubscribe ==
   /\ Len(Cur.snapshot) = Cardinality(DOMAIN active[N])      \* no duplicates
   /\ subPos' = [subPos EXCEPT ![N] = Len(evlog[N])]
   /\ UNCHANGED <<vars, pendEv, conns, tasks, spawnQ, nextTick, phase, subs, addrNode, lastAdd,
-                 replies, closeT, faultT, idle, ka, runStart, lastSend, quietLen, callListed>>
+                 replies, closeT, faultT, idle, ka, runStart, lastSend, quietLen, callListed, pathOut, pathIn>>
 
 TrObsSubscribe ==
   /\ IsEvent("obs.subscribe")
   /\ SeqToSet(Cur.snapshot) = DOMAIN active[N]
   /\ subs' = With(subs, Cur.sub, [node |-> N, pos |-> subPos[N]])
   /\ UNCHANGED <<vars, pendEv, conns, tasks, spawnQ, nextTick, phase, subPos, addrNode, lastAdd,
-                 replies, closeT, faultT, idle, ka, runStart, lastSend, quietLen, callListed>>
+                 replies, closeT, faultT, idle, ka, runStart, lastSend, quietLen, callListed, pathOut, pathIn>>
 
 (* a subscriber receives exactly the log, in order, from its position       *)
 TrObsEvent ==
@@ -496,7 +498,7 @@ TrObsEvent ==
   /\ evlog[N][subs[Cur.sub].pos + 1] = EvOf(Cur)
   /\ subs' = [subs EXCEPT ![Cur.sub].pos = @ + 1]
   /\ UNCHANGED <<vars, pendEv, conns, tasks, spawnQ, nextTick, phase, subPos, addrNode, lastAdd,
-                 replies, closeT, faultT, idle, ka, runStart, lastSend, quietLen, callListed>>
+                 replies, closeT, faultT, idle, ka, runStart, lastSend, quietLen, callListed, pathOut, pathIn>>
 
 (* end of stream: only after shutdown, and nothing was withheld             *)
 TrSubClosed ==
@@ -506,14 +508,14 @@ TrSubClosed ==
   /\ subs[Cur.sub].pos = Len(evlog[N])
   /\ subs' = Without(subs, Cur.sub)
   /\ UNCHANGED <<vars, pendEv, conns, tasks, spawnQ, nextTick, phase, subPos, addrNode, lastAdd,
-                 replies, closeT, faultT, idle, ka, runStart, lastSend, quietLen, callListed>>
+                 replies, closeT, faultT, idle, ka, runStart, lastSend, quietLen, callListed, pathOut, pathIn>>
 
 TrObsPeers ==
   /\ IsEvent("obs.peers")
   /\ SeqToSet(Cur.peers) = (IF phase[N] = "done" THEN {} ELSE DOMAIN active[N])
   /\ Len(Cur.peers) = Cardinality(SeqToSet(Cur.peers))
   /\ UNCHANGED <<vars, pendEv, conns, tasks, spawnQ, nextTick, phase, subs, subPos, addrNode,
-                 lastAdd, replies, closeT, faultT, idle, ka, runStart, lastSend, quietLen, callListed>>
+                 lastAdd, replies, closeT, faultT, idle, ka, runStart, lastSend, quietLen, callListed, pathOut, pathIn>>
 
 (* the result an application got from connect(): one of the replies sent    *)
 TrConnectResult ==
@@ -524,21 +526,21 @@ TrConnectResult ==
         /\ replies' = [replies EXCEPT ![N] = RemoveAt(@, i)]
   /\ Cur.ok /\ Has(Cur, "expected") => Cur.peer = Cur.expected
   /\ UNCHANGED <<vars, pendEv, conns, tasks, spawnQ, nextTick, phase, subs, subPos, addrNode,
-                 lastAdd, closeT, faultT, idle, ka, runStart, lastSend, quietLen, callListed>>
+                 lastAdd, closeT, faultT, idle, ka, runStart, lastSend, quietLen, callListed, pathOut, pathIn>>
 
 (* connect() on a network that is shut down fails without reaching the manager *)
 TrConnectRefused ==
   /\ IsEvent("obs.connect_refused")
   /\ phase[N] \in {"closing", "done"}
   /\ UNCHANGED <<vars, pendEv, conns, tasks, spawnQ, nextTick, phase, subs, subPos, addrNode,
-                 lastAdd, replies, closeT, faultT, idle, ka, runStart, lastSend, quietLen, callListed>>
+                 lastAdd, replies, closeT, faultT, idle, ka, runStart, lastSend, quietLen, callListed, pathOut, pathIn>>
 
 (* a connect() whose dial task was aborted by shutdown: the caller gets an error *)
 TrConnectAborted ==
   /\ IsEvent("obs.connect_aborted")
   /\ phase[N] \in {"closing", "done"}
   /\ UNCHANGED <<vars, pendEv, conns, tasks, spawnQ, nextTick, phase, subs, subPos, addrNode,
-                 lastAdd, replies, closeT, faultT, idle, ka, runStart, lastSend, quietLen, callListed>>
+                 lastAdd, replies, closeT, faultT, idle, ka, runStart, lastSend, quietLen, callListed, pathOut, pathIn>>
 
 -----------------------------------------------------------------------------
 (* Shutdown *)
@@ -550,7 +552,7 @@ TrShutBegin ==
   /\ phase[N] = "running"
   /\ phase' = [phase EXCEPT ![N] = "closing"]
   /\ UNCHANGED <<vars, pendEv, conns, tasks, spawnQ, nextTick, subs, subPos, addrNode, lastAdd,
-                 replies, closeT, faultT, idle, ka, runStart, lastSend, quietLen, callListed>>
+                 replies, closeT, faultT, idle, ka, runStart, lastSend, quietLen, callListed, pathOut, pathIn>>
 
 (* endpoint.close(): every connection of this endpoint is closed            *)
 TrShutClosed ==
@@ -560,7 +562,7 @@ TrShutClosed ==
   /\ closedL' = [closedL EXCEPT ![N] = @ \cup ConnsOf(N)]
   /\ Closes(N, ConnsOf(N))
   /\ UNCHANGED <<active, evlog, handlers, dialVars, pendEv, conns, tasks, spawnQ, nextTick, phase,
-                 subs, subPos, addrNode, lastAdd, replies, faultT, idle, ka, runStart, lastSend, quietLen, callListed>>
+                 subs, subPos, addrNode, lastAdd, replies, faultT, idle, ka, runStart, lastSend, quietLen, callListed, pathOut, pathIn>>
 
 (* pending connecting tasks are aborted: their results are never consumed   *)
 TrShutAborted ==
@@ -569,7 +571,7 @@ TrShutAborted ==
   /\ pendingConn' = [pendingConn EXCEPT ![N] = 0]
   /\ UNCHANGED <<connVars, known, cfg, pendingDial, bgResult, backoff, pendEv, conns, tasks,
                  spawnQ, nextTick, phase, subs, subPos, addrNode, lastAdd, replies, closeT,
-                 faultT, idle, ka, runStart, lastSend, quietLen, callListed>>
+                 faultT, idle, ka, runStart, lastSend, quietLen, callListed, pathOut, pathIn>>
 
 (* all handlers joined: the active set must be empty (the code asserts it)  *)
 TrShutJoined ==
@@ -579,14 +581,14 @@ TrShutJoined ==
   /\ Cur.active_len = 0
   /\ DOMAIN active[N] = {}
   /\ UNCHANGED <<vars, pendEv, conns, tasks, spawnQ, nextTick, phase, subs, subPos, addrNode,
-                 lastAdd, replies, closeT, faultT, idle, ka, runStart, lastSend, quietLen, callListed>>
+                 lastAdd, replies, closeT, faultT, idle, ka, runStart, lastSend, quietLen, callListed, pathOut, pathIn>>
 
 TrShutDone ==
   /\ IsEvent("shut.done")
   /\ phase[N] = "closing"
   /\ phase' = [phase EXCEPT ![N] = "done"]
   /\ UNCHANGED <<vars, pendEv, conns, tasks, spawnQ, nextTick, subs, subPos, addrNode, lastAdd,
-                 replies, closeT, faultT, idle, ka, runStart, lastSend, quietLen, callListed>>
+                 replies, closeT, faultT, idle, ka, runStart, lastSend, quietLen, callListed, pathOut, pathIn>>
 
 -----------------------------------------------------------------------------
 (* Quiescence: connectivity has been fault-free for longer than the idle    *)
@@ -606,7 +608,7 @@ TrQuiesce ==
         \A p \in DOMAIN active[n] : p \in DOMAIN phase => phase[p] = "running"
   /\ quietLen' = [n \in DOMAIN evlog |-> Len(evlog[n])]
   /\ UNCHANGED <<vars, pendEv, conns, tasks, spawnQ, nextTick, phase, subs, subPos, addrNode,
-                 lastAdd, replies, closeT, faultT, idle, ka, runStart, lastSend, callListed>>
+                 lastAdd, replies, closeT, faultT, idle, ka, runStart, lastSend, callListed, pathOut, pathIn>>
 
 (* C05 Converge: after a mutual dial both sides hold the same connection,   *)
 (* the one dialed by the greater identity                                   *)
@@ -617,14 +619,14 @@ TrConverged ==
      /\ active[a][b].gid = active[b][a].gid
      /\ conns[active[a][b].gid].d = hi
   /\ UNCHANGED <<vars, pendEv, conns, tasks, spawnQ, nextTick, phase, subs, subPos, addrNode,
-                 lastAdd, replies, closeT, faultT, idle, ka, runStart, lastSend, quietLen, callListed>>
+                 lastAdd, replies, closeT, faultT, idle, ka, runStart, lastSend, quietLen, callListed, pathOut, pathIn>>
 
 (* C05 Settled: no further connect / disconnect events since quiescence     *)
 TrSettled ==
   /\ IsEvent("obs.settled")
   /\ \A n \in DOMAIN quietLen : Len(evlog[n]) = quietLen[n]
   /\ UNCHANGED <<vars, pendEv, conns, tasks, spawnQ, nextTick, phase, subs, subPos, addrNode,
-                 lastAdd, replies, closeT, faultT, idle, ka, runStart, lastSend, quietLen, callListed>>
+                 lastAdd, replies, closeT, faultT, idle, ka, runStart, lastSend, quietLen, callListed, pathOut, pathIn>>
 
 -----------------------------------------------------------------------------
 (* Events of other layers (RPC path, timeouts, raw observations) do not    *)
@@ -637,7 +639,7 @@ TrRpcCall ==
   /\ callListed' = With(callListed, Cur.nonce,
                          [listed |-> phase[N] # "done" /\ Cur.to \in DOMAIN active[N], to |-> Cur.to])
   /\ UNCHANGED <<vars, pendEv, conns, tasks, spawnQ, nextTick, phase, subs, subPos, addrNode,
-                 lastAdd, replies, closeT, faultT, idle, ka, runStart, lastSend, quietLen>>
+                 lastAdd, replies, closeT, faultT, idle, ka, runStart, lastSend, quietLen, pathOut, pathIn>>
 
 TrRpcResult ==
   /\ IsEvent("obs.rpc_result")
@@ -647,13 +649,31 @@ TrRpcResult ==
   /\ Get(Cur, "must_succeed", FALSE) => Cur.ok
   /\ callListed' = Without(callListed, Cur.nonce)
   /\ UNCHANGED <<vars, pendEv, conns, tasks, spawnQ, nextTick, phase, subs, subPos, addrNode,
-                 lastAdd, replies, closeT, faultT, idle, ka, runStart, lastSend, quietLen>>
+                 lastAdd, replies, closeT, faultT, idle, ka, runStart, lastSend, quietLen, pathOut, pathIn>>
+
+(* endpoint.accept() yielded None: the incoming connection attempt could not *)
+(* be accepted (or the endpoint is closed); the manager just loops           *)
+TrAcceptNone ==
+  /\ IsEvent("mgr.accept_none")
+  /\ UNCHANGED <<vars, pendEv, conns, tasks, spawnQ, nextTick, phase, subs, subPos, addrNode,
+                 lastAdd, replies, closeT, faultT, idle, ka, runStart, lastSend, quietLen, callListed, pathOut, pathIn>>
+
+(* datagram activity between two addresses, reported by the fabric (rate limited) *)
+TrPath ==
+  /\ IsEvent("obs.path")
+  /\ IF Cur.src \in DOMAIN addrNode /\ Cur.dst \in DOMAIN addrNode
+     THEN LET a == addrNode[Cur.src]  b == addrNode[Cur.dst] IN
+          /\ pathOut' = With(pathOut, <<a, b>>, Cur.t)
+          /\ pathIn' = IF Cur.lost THEN pathIn ELSE With(pathIn, <<a, b>>, Cur.t)
+     ELSE UNCHANGED <<pathOut, pathIn>>
+  /\ UNCHANGED <<vars, pendEv, conns, tasks, spawnQ, nextTick, phase, subs, subPos, addrNode,
+                 lastAdd, replies, closeT, faultT, idle, ka, runStart, lastSend, quietLen, callListed>>
 
 TrRpcOpen ==
   /\ IsEvent("rpc.open")
   /\ lastSend' = With(lastSend, <<N, Cur.gid>>, Cur.t)
   /\ UNCHANGED <<vars, pendEv, conns, tasks, spawnQ, nextTick, phase, subs, subPos, addrNode,
-                 lastAdd, replies, closeT, faultT, idle, ka, runStart, quietLen, callListed>>
+                 lastAdd, replies, closeT, faultT, idle, ka, runStart, quietLen, callListed, pathOut, pathIn>>
 
 Ignored == {"conn.new", "tmo.set", "tmo.fire", "rpc.finish", "rpc.recv", "rpc.drop",
             "srv.accept", "srv.decoded", "srv.ret", "srv.end", "srv.drop", "srv.err",
@@ -664,7 +684,7 @@ Ignored == {"conn.new", "tmo.set", "tmo.fire", "rpc.finish", "rpc.recv", "rpc.dr
 TrIgnored ==
   /\ l <= Len(Rec) /\ Cur.ev \in Ignored /\ l' = l + 1 /\ now' = Cur.t
   /\ UNCHANGED <<vars, pendEv, conns, tasks, spawnQ, nextTick, phase, subs, subPos, addrNode,
-                 lastAdd, replies, closeT, faultT, idle, ka, runStart, lastSend, quietLen, callListed>>
+                 lastAdd, replies, closeT, faultT, idle, ka, runStart, lastSend, quietLen, callListed, pathOut, pathIn>>
 
 TraceNext ==
   \/ TrReset \/ TrNodeStart \/ TrAddr \/ TrMgrStart \/ TrKnownInsert \/ TrKnownRemove \/ TrFault
@@ -676,7 +696,7 @@ TraceNext ==
   \/ TrApSubscribe \/ TrObsSubscribe \/ TrObsEvent \/ TrSubClosed \/ TrObsPeers
   \/ TrConnectResult \/ TrConnectRefused \/ TrConnectAborted
   \/ TrShutBegin \/ TrShutClosed \/ TrShutAborted \/ TrShutJoined \/ TrShutDone
-  \/ TrQuiesce \/ TrConverged \/ TrSettled \/ TrRpcCall \/ TrRpcResult \/ TrRpcOpen \/ TrIgnored
+  \/ TrQuiesce \/ TrConverged \/ TrSettled \/ TrAcceptNone \/ TrPath \/ TrRpcCall \/ TrRpcResult \/ TrRpcOpen \/ TrIgnored
 
 TraceSpec == TraceInit /\ [][TraceNext]_allvars
 
@@ -691,12 +711,18 @@ TraceSpec == TraceInit /\ [][TraceNext]_allvars
 (* pings or a new RPC on the connection - detects the loss up to one send   *)
 (* later.                                                                   *)
 LastSend(n, g) == IF <<n, g>> \in DOMAIN lastSend THEN lastSend[<<n, g>>] ELSE 0
+At(f, k) == IF k \in DOMAIN f THEN f[k] ELSE 0
+Max3(a, b, c) == Max2(a, Max2(b, c))
+
+(* the survivor's idle timer runs from the last datagram it received from   *)
+(* the peer's address or sent towards it                                    *)
+LastPathActivity(n, o) == Max2(At(pathOut, <<n, o>>), At(pathIn, <<o, n>>))
 
 Late ==
   {<<n, g>> \in {<<m, h>> \in (DOMAIN handlers) \X (DOMAIN conns) : h \in handlers[m]} :
      LET o == Other(n, g) IN
      /\ <<o, g>> \in DOMAIN closeT
-     /\ now > Max2(closeT[<<o, g>>], LastSend(n, g)) + idle[n] + ka[n] + 2000}
+     /\ now > Max3(closeT[<<o, g>>], LastSend(n, g), LastPathActivity(n, o)) + idle[n] + ka[n] + 2000}
 
 CloseObservedBy == Late = {}
 
